@@ -1,12 +1,18 @@
 """C06 — the result does not depend on the field-lookup strategy.
 
 Same stream of declarations / inputs / options as C05 (harness/c05.py); every case is parsed once with
-`Options(data_first_search=True)` and once with `False` on the real code.  Oracle: the two outcomes are the same —
-equal mapping, `__dict__` and attribute access when both succeed; otherwise both raise a ParseError (fail-fast: which
-one depends on the iteration order) or both collect, and without `max_errors` the sets of <kind, item> coincide.
+`Options(data_first_search=True)` and once with `False` on the real code.  Oracle (the strict reading of "a failure of
+the same kind", `SameOutcomeStrict` in Props/C06.lean): equal mapping, `__dict__` and attribute access when both
+succeed; otherwise both raise the SAME <kind, item>, or both collect the same set of <kind, item>.
+Known finding `failfast-first-error-order` (`KnownDefect` in Props/C06.lean): when not every violation is reported
+(fail-fast, or `max_errors`) and the input has two different ones, which is reported depends on the loop order of the
+strategy.  `classify` admits exactly that class: both strategies, made to collect everything, report the same set V,
+V has two different members, and what each reported is a member of V.
 Correspondence: each of the two runs against the Lean model of its strategy (`dataFirst` / `fieldFirst`).
 """
 from __future__ import annotations
+
+import json
 
 from .c05 import C05, gen_func_case, judge
 
@@ -24,12 +30,23 @@ def same(df, ff, collect, max_errors):
         return f"one strategy succeeds, the other fails: data-first {df} vs field-first {ff}"
     if ("raised" in df) != ("raised" in ff):
         return f"failure of a different kind: data-first {df} vs field-first {ff}"
-    if "collected" in df and max_errors is None:
-        a = {(k, tuple(i) if isinstance(i, list) else i) for k, i in df["collected"]}
-        b = {(k, tuple(i) if isinstance(i, list) else i) for k, i in ff["collected"]}
-        if a != b:
-            return f"collected errors differ: data-first {sorted(a, key=str)} vs field-first {sorted(b, key=str)}"
+    a, b = reported(df), reported(ff)
+    if a != b:
+        if "raised" in df:
+            return f"{ORDER}: data-first raises {sorted(a, key=str)[0]}, field-first raises {sorted(b, key=str)[0]}"
+        if max_errors is not None:
+            return (f"{ORDER} (max_errors={max_errors}): data-first collects {sorted(a, key=str)}, field-first "
+                    f"{sorted(b, key=str)}")
+        return f"collected errors differ: data-first {sorted(a, key=str)} vs field-first {sorted(b, key=str)}"
     return None
+
+
+ORDER = "which error is reported depends on the strategy"
+
+
+def reported(o) -> set:
+    es = [o["raised"]] if "raised" in o else o.get("collected", [])
+    return {(k, tuple(i) if isinstance(i, list) else i) for k, i in es}
 
 
 class C06(C05):
@@ -60,7 +77,29 @@ class C06(C05):
         from .c05 import flat
         own = case["cls"].get("opts") if case.get("kind") == "func" else flat(case).get("opts")
         o = norm_opts(case["runtime"] if case.get("runtime") is not None else own)
-        return same(io["df"], io["ff"], o["collect_errors"], o["max_errors"])
+        why = same(io["df"], io["ff"], o["collect_errors"], o["max_errors"])
+        if why and why.startswith(ORDER) and isinstance(mo, dict) and mo.get("wf") and "spec" in mo:
+            # the Lean side of the classification: the violations of the contract (KnownDefect needs two different ones)
+            io["_lean_violations"] = len({json.dumps(e, sort_keys=True) for e in mo["spec"]["errs"]})
+        return why
+
+    def classify(self, case, io, why):
+        """`failfast-first-error-order` and nothing else: both strategies fail, neither reports everything, and — made
+        to collect without a cap — both handle the same set V of violations, V has two different members, and what each
+        run reported is in V."""
+        if not why.startswith(ORDER):
+            return None
+        da, fa = io.get("df_all"), io.get("ff_all")
+        if not (isinstance(da, dict) and isinstance(fa, dict) and "collected" in da and "collected" in fa):
+            return None
+        V = reported(da)
+        if V != reported(fa) or len(V) < 2:
+            return None
+        if not (reported(io["df"]) <= V and reported(io["ff"]) <= V):
+            return None
+        if io.get("_lean_violations", 2) < 2:
+            return None
+        return "failfast-first-error-order"
 
 
 CHECK = C06()
